@@ -1,0 +1,40 @@
+//go:build verif
+
+// Contracts for the frame wire codec (read as text by /verif's govc; comment-only).
+
+package codec
+
+//@ # ---- header flag byte
+//@ pure func (f flags) encode() byte
+//@ pure func decodeFlags(b byte) flags
+//@ pure func newFlags() flags
+//@ lemma flagsRoundTrip(f flags)
+//@   arith bv
+//@   ensures decodeFlags(f.encode()) == f
+//@   ensures f.encode() & 0xC0 == 0
+//@ # each flag has its own bit: two different flag sets never share an encoding
+//@ lemma flagsInjective(f flags, g flags)
+//@   arith bv
+//@   ensures (f.encode() == g.encode()) == (f == g)
+
+//@ # ---- the sort order used to group series: strict total order on (key, alignment, raw index)
+//@ pure func (s *sorter) Less(i int, j int) bool
+//@ lemma sorterLessStrictOrder(s *sorter, i int, j int, k int)
+//@   ensures !s.Less(i, i)
+//@   ensures s.Less(i, j) && s.Less(j, k) ==> s.Less(i, k)
+//@   ensures !(s.Less(i, j) && s.Less(j, i))
+//@   ensures !s.Less(i, j) && !s.Less(j, i) ==> s.keys[i] == s.keys[j] && s.alignments[i] == s.alignments[j] && s.rawIndices[i] == s.rawIndices[j]
+
+//@ func (s *sorter) Swap(i int, j int)
+//@   requires 0 <= i && i < len(s.keys) && 0 <= j && j < len(s.keys) && len(s.keys) == len(s.rawIndices) && len(s.keys) == len(s.alignments)
+//@   ensures  s.keys[i] == old(s.keys[j]) && s.keys[j] == old(s.keys[i])
+//@   ensures  s.rawIndices[i] == old(s.rawIndices[j]) && s.rawIndices[j] == old(s.rawIndices[i])
+//@   ensures  s.alignments[i] == old(s.alignments[j]) && s.alignments[j] == old(s.alignments[i])
+//@   ensures  forall k int :: 0 <= k && k < len(s.keys) && k != i && k != j ==> s.keys[k] == old(s.keys[k]) && s.rawIndices[k] == old(s.rawIndices[k]) && s.alignments[k] == old(s.alignments[k])
+//@   ensures  len(s.keys) == old(len(s.keys)) && len(s.rawIndices) == old(len(s.rawIndices)) && len(s.alignments) == old(len(s.alignments)) && s.offset == old(s.offset)
+//@   modifies &s.keys, &s.rawIndices, &s.alignments
+//@ func (s *sorter) insert(key channel.Key, rawIndex int, alignment telem.Alignment)
+//@   requires 0 <= s.offset && s.offset < len(s.keys) && s.offset < len(s.rawIndices) && s.offset < len(s.alignments)
+//@   ensures  s.offset == old(s.offset)+1 && s.keys[old(s.offset)] == key && s.rawIndices[old(s.offset)] == rawIndex && s.alignments[old(s.offset)] == alignment
+//@   ensures  forall k int :: 0 <= k && k < old(s.offset) ==> s.keys[k] == old(s.keys[k]) && s.rawIndices[k] == old(s.rawIndices[k]) && s.alignments[k] == old(s.alignments[k])
+//@   modifies s
